@@ -737,6 +737,12 @@ class LittleEndianByteOrderer final {
 
   LittleEndianByteOrderer() : buffer_() {}
   explicit LittleEndianByteOrderer(BufferType buffer) : buffer_{buffer} {}
+
+  // Two byte orderers are equal when they are over the same bytes; array views
+  // and their iterators compare their storage.
+  bool operator==(const LittleEndianByteOrderer &other) const {
+    return buffer_ == other.buffer_;
+  }
   LittleEndianByteOrderer(const LittleEndianByteOrderer &other) = default;
   LittleEndianByteOrderer(LittleEndianByteOrderer &&other) = default;
   LittleEndianByteOrderer &operator=(const LittleEndianByteOrderer &other) =
@@ -810,6 +816,12 @@ class BigEndianByteOrderer final {
 
   BigEndianByteOrderer() : buffer_() {}
   explicit BigEndianByteOrderer(BufferType buffer) : buffer_{buffer} {}
+
+  // Two byte orderers are equal when they are over the same bytes; array views
+  // and their iterators compare their storage.
+  bool operator==(const BigEndianByteOrderer &other) const {
+    return buffer_ == other.buffer_;
+  }
   BigEndianByteOrderer(const BigEndianByteOrderer &other) = default;
   BigEndianByteOrderer(BigEndianByteOrderer &&other) = default;
   BigEndianByteOrderer &operator=(const BigEndianByteOrderer &other) = default;
@@ -855,6 +867,12 @@ class NullByteOrderer final {
 
   NullByteOrderer() : buffer_() {}
   explicit NullByteOrderer(BufferType buffer) : buffer_{buffer} {}
+
+  // Two byte orderers are equal when they are over the same bytes; array views
+  // and their iterators compare their storage.
+  bool operator==(const NullByteOrderer &other) const {
+    return buffer_ == other.buffer_;
+  }
   NullByteOrderer(const NullByteOrderer &other) = default;
   NullByteOrderer(NullByteOrderer &&other) = default;
   NullByteOrderer &operator=(const NullByteOrderer &other) = default;
@@ -918,8 +936,17 @@ class OffsetBitBlock final {
         offset_{static_cast</**/ ::std::uint8_t>(offset)},
         size_{static_cast</**/ ::std::uint8_t>(size)},
         ok_{offset == offset_ && size == size_ && ok} {}
+  // Constructs a null OffsetBitBlock; equivalent to OffsetBitBlock().  Array
+  // views construct the storage of an out-of-range element this way, as with
+  // ContiguousBuffer(nullptr).
+  explicit OffsetBitBlock(::std::nullptr_t) : OffsetBitBlock() {}
   OffsetBitBlock(const OffsetBitBlock &other) = default;
   OffsetBitBlock &operator=(const OffsetBitBlock &other) = default;
+
+  bool operator==(const OffsetBitBlock &other) const {
+    return bit_block_ == other.bit_block_ && offset_ == other.offset_ &&
+           size_ == other.size_ && ok_ == other.ok_;
+  }
 
   template </**/ ::std::size_t kNewAlignment, ::std::size_t kNewOffset>
   OffsetStorageType<kNewAlignment, kNewOffset> GetOffsetStorage(
@@ -1006,10 +1033,12 @@ class OffsetBitBlock final {
                                   (new_value << offset_));
   }
 
-  const UnderlyingBitBlockType bit_block_;
-  const ::std::uint8_t offset_;
-  const ::std::uint8_t size_;
-  const ::std::uint8_t ok_;
+  // Not const: views over an OffsetBitBlock are assignable (array iterators
+  // assign element views), like views over a ContiguousBuffer.
+  UnderlyingBitBlockType bit_block_;
+  ::std::uint8_t offset_;
+  ::std::uint8_t size_;
+  ::std::uint8_t ok_;
 };
 
 // BitBlock is a view of a short, fixed-size sequence of bits somewhere in
@@ -1048,6 +1077,10 @@ class BitBlock final {
   BitBlock &operator=(const BitBlock &) = default;
   BitBlock &operator=(BitBlock &&) = default;
   ~BitBlock() = default;
+
+  bool operator==(const BitBlock &other) const {
+    return buffer_ == other.buffer_;
+  }
 
   static constexpr ::std::size_t Bits() { return kBufferSizeInBits; }
 
